@@ -62,9 +62,18 @@ class SysHandler(object):
 
     def quit(self):
         # We need to transfer the control to the loop's thread
-        self.controller.loop.add_callback_from_signal(
-            self.controller.dispatch, (None, make_json("quit"))
-        )
+        self.controller.loop.add_callback_from_signal(self._quit)
+
+    def _quit(self):
+        arbiter = self.controller.arbiter
+        if (arbiter._exclusive_running_command is not None and
+                not arbiter._stopping):
+            # an exclusive operation is in flight: the quit would be refused
+            # with a ConflictError nobody sees. A termination signal must not
+            # be lost, so try again once the operation is over.
+            self.controller.loop.call_later(0.1, self._quit)
+            return
+        self.controller.dispatch((None, make_json("quit")))
 
     def reload(self):
         # We need to transfer the control to the loop's thread
